@@ -34,7 +34,7 @@ ASSUMPTIONS = ["tests on a path are not correlated (adds infeasible paths only; 
 TRUSTED = ["CPython ast", "sa.paths enumeration"]
 
 
-def acct_rule(ctx: Ctx, rid: str = "R09.acct", only=None) -> None:
+def acct_rule(ctx: Ctx, rid: str = "R09.acct", only=None, penalty_only: bool = False) -> None:
     m = ctx.model
     r = ctx.rule(rid, "accounting group exactly once on counted paths, never on uncounted ones")
     total_paths = 0
@@ -52,6 +52,9 @@ def acct_rule(ctx: Ctx, rid: str = "R09.acct", only=None) -> None:
             key = f"{key0}|{label}"
             r.inst(key, None)
             probs = []
+            if penalty_only:
+                pc.acc, pc.hits_val, pc.hits_lit, pc.last = [], [], [], []
+                pc.acc_bad, pc.hits_bad, pc.last_bad = [], [], []
             stats = len(pc.acc) + len(pc.hits_val) + len(pc.hits_lit) + len(pc.last) + len(pc.pen) \
                 + len(pc.acc_bad) + len(pc.hits_bad) + len(pc.last_bad) + len(pc.pen_bad)
             if pc.acc_bad or pc.hits_bad or pc.last_bad or pc.pen_bad:
@@ -66,6 +69,10 @@ def acct_rule(ctx: Ctx, rid: str = "R09.acct", only=None) -> None:
                     n = (pc.acc + pc.hits_val + [x[0] for x in pc.hits_lit] + pc.last + [x[0] for x in pc.pen] + [f.node])[0]
                     probs.append((n, "an uncounted access updates statistics"))
             else:
+                if penalty_only:
+                    # C07 cares about the cycle counter only: exactly the miss penalty on counted misses
+                    pc.acc, pc.last = [None], [None]
+                    pc.hits_val, pc.hits_lit = [None], []
                 if len(pc.acc) != 1:
                     probs.append((f.node, f"`accesses += 1` occurs {len(pc.acc)} times on a counted path"))
                 if pc.hits_val:
@@ -190,14 +197,14 @@ def once_rule(ctx: Ctx) -> None:
         beh = m.method(c, "behavior", own=True)
         calls = _mem_calls(beh)
         sanctioned |= {id(x) for x in calls}
-        ok = len(calls) == 1 and calls[0].func.attr == meth and _flag_arg(calls[0], flag) is None  # type: ignore[attr-defined]
+        ok = len(calls) == 1 and (calls[0].func.attr in READS) == isload and _flag_arg(calls[0], flag) is None  # type: ignore[attr-defined]
         r.check(ok, f"{cn}.behavior", beh.loc(), f"{cn}.behavior must perform exactly one counted "
-                f"memory.{meth}(..) (found {[ast.unparse(x.func) for x in calls]}, flag argument "
+                f"memory {'read' if isload else 'write'} (found {[ast.unparse(x.func) for x in calls]}, flag argument "
                 f"{'present' if calls and _flag_arg(calls[0], flag) is not None else 'absent'})")
         ma = m.method(c, "memory_access", own=True)
         calls = _mem_calls(ma)
         sanctioned |= {id(x) for x in calls}
-        ok = len(calls) == 1 and calls[0].func.attr == meth  # type: ignore[attr-defined]
+        ok = len(calls) == 1 and (calls[0].func.attr in READS) == isload  # type: ignore[attr-defined]
         if ok:
             a = _flag_arg(calls[0], flag)
             txt = ast.unparse(a) if a is not None else ""
